@@ -50,7 +50,7 @@ fn choose_meta(ch: &mut Chooser, fmt: &str) -> Meta {
     Meta { sheets, names, is1904: ch.flag("date1904") }
 }
 
-const SERIAL: f64 = 44197.0;
+const SERIAL: f64 = 44197.25;
 
 fn build(ch: &mut Chooser, fmt: &str) -> (Vec<u8>, Meta, Vec<(String, String)>) {
     let m = choose_meta(ch, fmt);
@@ -73,7 +73,7 @@ fn build(ch: &mut Chooser, fmt: &str) -> (Vec<u8>, Meta, Vec<(String, String)>) 
                 b.defined_names.push((n.clone(), v.clone()));
                 expn.push((n.clone(), v));
             }
-            let e = xlsx::XEnc { prefix: ch.flag("xlsx.prefix"), indent: ch.flag("xlsx.indented"), split_text_nodes: ch.flag("xlsx.defined-name-text-split-by-comment"), rels_target_first: ch.flag("xlsx.rels-target-before-type"), ..Default::default() };
+            let e = xlsx::XEnc { prefix: ch.flag("xlsx.prefix"), indent: ch.flag("xlsx.indented"), split_text_nodes: ch.flag("xlsx.defined-name-text-split-by-comment"), bool_words: ch.flag("xlsx.date1904-spelled-true-false"), rels_target_first: ch.flag("xlsx.rels-target-before-type"), ..Default::default() };
             (xlsx::write(&b, &e), m, expn)
         }
         "xlsb" => {
@@ -102,8 +102,10 @@ fn build(ch: &mut Chooser, fmt: &str) -> (Vec<u8>, Meta, Vec<(String, String)>) 
         }
         "xls" => {
             let mut b = biff8::BBook { date1904: m.is1904, xfs: vec![0, 14], ..Default::default() };
+            // the date cell as NUMBER, or as an RK integer with the /100 flag (how a date with a time of day is often stored)
+            let rk100 = ch.flag("xls.date-cell-as-rk-integer-div-100");
             for s in &m.sheets {
-                let mut sh = biff8::BSheet::new(&s.name, vec![biff8::BCell::Number { r: 0, c: 0, xf: 1, v: SERIAL }]);
+                let mut sh = biff8::BSheet::new(&s.name, vec![if rk100 { biff8::BCell::Rk { r: 0, c: 0, xf: 1, rk: (((SERIAL * 100.0).round() as i32 as u32) << 2) | 3 } } else { biff8::BCell::Number { r: 0, c: 0, xf: 1, v: SERIAL } }]);
                 sh.state = match s.vis { SheetVisible::Visible => 0, SheetVisible::Hidden => 1, SheetVisible::VeryHidden => 2 };
                 sh.dt = match s.typ { SheetType::MacroSheet => 1, SheetType::ChartSheet => 2, SheetType::Vba => 6, _ => 0 };
                 sh.name_wide = ch.flag("xls.sheet-name-16bit");
@@ -182,6 +184,20 @@ fn read(fmt: &str, bytes: &[u8], m: &Meta) -> Result<Obs, String> {
     match fmt { "xlsx" => go::<Xlsx<_>>(bytes, m), "xlsb" => go::<Xlsb<_>>(bytes, m), "xls" => go::<Xls<_>>(bytes, m), _ => go::<Ods<_>>(bytes, m) }
 }
 
+/// the same observation through format auto-detection on the bytes (no file name to go by)
+fn read_auto(bytes: &[u8], m: &Meta) -> Result<Obs, String> {
+    let mut wb = calamine::open_workbook_auto_from_rs(Cursor::new(bytes.to_vec())).map_err(|e| format!("open: {e:?}"))?;
+    let meta = wb.sheets_metadata().to_vec();
+    let names = wb.sheet_names();
+    let defined = wb.defined_names().to_vec();
+    let mut cells = vec![];
+    for s in m.sheets.iter().filter(|s| s.typ == SheetType::WorkSheet) {
+        let r = wb.worksheet_range(&s.name).map_err(|e| format!("worksheet_range({}): {e:?}", s.name))?;
+        cells.push((s.name.clone(), r.get_value((0, 0)).cloned().unwrap_or(Data::Empty)));
+    }
+    Ok((meta, names, defined, cells))
+}
+
 fn run_case(rep: &Report, ch: &mut Chooser, fmt: &str, local: &mut Vec<(u64, bool, u64)>) {
     let (bytes, m, expn) = build(ch, fmt);
     rep.eval(1);
@@ -210,6 +226,11 @@ fn run_case(rep: &Report, ch: &mut Chooser, fmt: &str, local: &mut Vec<(u64, boo
             hash_of(&format!("{meta:?}{defined:?}{cells:?}"))
         }
     };
+    // a workbook the format's own reader accepts reads the same through auto-detection
+    if let Ok(Ok(own)) = &res {
+        let auto = guarded(|| read_auto(&bytes, &m));
+        match &auto { Ok(Ok(a)) if a == own => {}, other => rep.fail(&format!("{fmt}/auto-detected-differs"), &format!("auto-detected reader: {:?}; the {fmt} reader: sheets {:?}, names {:?}", other.as_ref().map(|r| r.as_ref().map(|o| (&o.1, &o.2))), own.1, own.2), replay) }
+    }
     local.push((hash_of(&bytes), !ch.is_default(), outcome));
     if rep.want_sample() && ch.choices().iter().filter(|x| **x != 0).count() >= 3 { rep.sample(desc); }
 }
